@@ -106,8 +106,18 @@ struct GateState {
     turn: Option<u8>,
     order: std::collections::VecDeque<u8>,
     done: [bool; 2],
+    /// waiting for a lock the other caller holds
+    blocked: [bool; 2],
     switches: u32,
+    /// bumped on every hand-over: lets a waiter tell a holder that is making progress from one that
+    /// is really blocked inside a primitive the simulator does not intercept
+    epoch: u64,
+    forced: u32,
 }
+
+/// Payload of the panic with which a simulated caller thread leaves the library when both callers
+/// wait for each other (or one waits for a lock it holds itself): outcome class `hang`.
+pub struct SimDeadlock;
 
 thread_local! {
     static GATE: RefCell<Option<(std::sync::Arc<Gate>, u8)>> = RefCell::new(None);
@@ -116,7 +126,7 @@ thread_local! {
 impl Gate {
     pub fn new(order: &[u8]) -> std::sync::Arc<Gate> {
         let g = Gate {
-            m: std::sync::Mutex::new(GateState { turn: None, order: order.iter().copied().collect(), done: [false; 2], switches: 0 }),
+            m: std::sync::Mutex::new(GateState { turn: None, order: order.iter().copied().collect(), done: [false; 2], blocked: [false; 2], switches: 0, epoch: 0, forced: 0 }),
             cv: std::sync::Condvar::new(),
         };
         {
@@ -137,8 +147,22 @@ impl Gate {
     }
     pub fn acquire(&self, me: u8) {
         let mut st = self.m.lock().unwrap();
+        let mut seen = st.epoch;
+        let mut since = std::time::Instant::now();
         while st.turn != Some(me) {
-            st = self.cv.wait(st).unwrap();
+            let (g, _) = self.cv.wait_timeout(st, std::time::Duration::from_millis(500)).unwrap();
+            st = g;
+            if st.epoch != seen {
+                seen = st.epoch;
+                since = std::time::Instant::now();
+            } else if st.turn != Some(me) && since.elapsed() > std::time::Duration::from_secs(5) {
+                // the holder has not reached a scheduling point for 5 s: it is blocked for real in
+                // something the simulator does not intercept (Condvar, channel, foreign Once).
+                // Let this caller run rather than deadlock the simulation itself.
+                st.turn = Some(me);
+                st.forced += 1;
+                st.epoch += 1;
+            }
         }
     }
     fn release(&self, me: u8, finished: bool) {
@@ -146,12 +170,37 @@ impl Gate {
         if finished {
             st.done[me as usize] = true;
         }
+        if st.turn != Some(me) && !finished {
+            return; // the turn was taken from this caller while it was blocked for real
+        }
         let next = Gate::pick(&mut st);
         if next != Some(me) {
             st.switches += 1;
         }
         st.turn = next;
+        st.epoch += 1;
         self.cv.notify_all();
+    }
+    /// `me` found a lock held by the other caller: run the other one. Err = nobody can run.
+    fn yield_blocked(&self, me: u8) -> Result<(), ()> {
+        let other = 1 - me;
+        {
+            let mut st = self.m.lock().unwrap();
+            if st.done[other as usize] || st.blocked[other as usize] {
+                return Err(());
+            }
+            st.blocked[me as usize] = true;
+            st.turn = Some(other);
+            st.switches += 1;
+            st.epoch += 1;
+            self.cv.notify_all();
+        }
+        self.acquire(me);
+        self.m.lock().unwrap().blocked[me as usize] = false;
+        Ok(())
+    }
+    pub fn forced(&self) -> u32 {
+        self.m.lock().unwrap().forced
     }
     pub fn finish(&self, me: u8) {
         self.release(me, true);
@@ -167,6 +216,32 @@ pub fn gate_install(g: std::sync::Arc<Gate>, me: u8) {
 pub fn gate_clear() {
     GATE.with(|c| *c.borrow_mut() = None);
 }
+/// Hooks called by the std facade the library is compiled against (sim/simstd).
+pub fn install_sched_hooks() {
+    fn point(_kind: &'static str) {
+        SCHED_POINTS.with(|c| c.set(c.get() + 1));
+        gate_yield();
+    }
+    fn blocked(_kind: &'static str) -> bool {
+        let g = GATE.with(|c| c.borrow().clone());
+        match g {
+            None => false,
+            Some((g, me)) => {
+                if g.yield_blocked(me).is_err() {
+                    std::panic::panic_any(SimDeadlock);
+                }
+                true
+            }
+        }
+    }
+    simstd::simhook::install(point, blocked);
+}
+
+thread_local! {
+    /// scheduling points announced by std::sync primitives on this thread (a probe)
+    pub static SCHED_POINTS: std::cell::Cell<u64> = std::cell::Cell::new(0);
+}
+
 /// A scheduling point: hand the turn back and wait to be scheduled again.
 fn gate_yield() {
     let g = GATE.with(|c| c.borrow().clone());
@@ -271,7 +346,7 @@ pub fn run_lib<T>(script: &RngScript, f: impl FnOnce() -> T) -> (Outcome<T>, Rng
     let out = match r {
         Ok(v) => Outcome::Done(v),
         Err(p) => {
-            if p.downcast_ref::<BudgetExceeded>().is_some() {
+            if p.downcast_ref::<BudgetExceeded>().is_some() || p.downcast_ref::<SimDeadlock>().is_some() {
                 Outcome::Hang
             } else {
                 Outcome::Panic(LAST_PANIC.with(|p| p.borrow().clone()))
